@@ -117,6 +117,14 @@ func (d *defineBuiltinMethod) defineBuiltinStaticMethod(
 
 	existingT := base.GetClassMethodT(frame, d.targetClass, method, false)
 
+	// GetClassMethodT falls back to Object's class methods: only a method
+	// of this very class takes the new signature as an overload
+	if existingT != nil &&
+		(existingT.DefinedClass != d.targetClass || existingT.DefinedFrame != frame) {
+
+		existingT = nil
+	}
+
 	if existingT != nil {
 		existingT.Overloads = append(existingT.Overloads, *methodT)
 
